@@ -38,6 +38,11 @@ def _stimuli_of(labels):
     return tuple(out)
 
 
+def _suspended_holders(labels):
+    """Number of distinct callers that were suspended inside a method body in this behaviour."""
+    return len({m.group(1) for lab in labels for m in [re.match(r'(?:TasksGone|FileGone)\((\d+)\)', lab)] if m})
+
+
 def _init_key(st):
     return (str(st['dir']), str(st['st']), bool(st['file']), bool(st['bg']), bool(st['failR']))
 
@@ -277,9 +282,13 @@ def _fingerprint(tid, info, trace):
     return f"C03:unexplained:{ev.get('ev')}"
 
 
+DOUBLE = set()     # schedules in which two different holders were suspended one after the other
+
+
 def collect_schedules(chk: Check, thorough: bool):
     """TLC-generated behaviours projected onto stimulus schedules, by source."""
     scheds = {}
+    DOUBLE.clear()
 
     def add_cover(cfg, tag):
         g, res = tlc.dump_graph(SPEC, cfg, parse_states='init', timeout=1500)
@@ -289,7 +298,10 @@ def collect_schedules(chk: Check, thorough: bool):
         n = 0
         for p in paths:
             init = _init_key(g.states[p[0][0]])
-            st = _stimuli_of([e[1] for e in p])
+            labels = [e[1] for e in p]
+            st = _stimuli_of(labels)
+            if st and _suspended_holders(labels) >= 2:
+                DOUBLE.add((init, st))
             if st and (init, st) not in scheds:
                 scheds[(init, st)] = tag
                 n += 1
@@ -388,12 +400,16 @@ def run(chk: Check, args):
             def sandwiched(k):
                 rel = [i for i, x in enumerate(k[1]) if x[0] != 'call']
                 return len(rel) >= 2 and any(x[0] == 'call' for x in k[1][rel[0]:rel[-1]])
-            a = [k for k in ks if sandwiched(k)]
-            b = [k for k in ks if not sandwiched(k)]
+            dbl = [k for k in ks if k in DOUBLE]          # rarest class: always all of them
+            rest = [k for k in ks if k not in DOUBLE]
+            a = [k for k in rest if sandwiched(k)]
+            b = [k for k in rest if not sandwiched(k)]
             chk.rng.shuffle(a)
             chk.rng.shuffle(b)
-            na = min(len(a), cap // 2)
-            ks = sorted(a[:na] + b[:cap - na])
+            room = max(0, cap - len(dbl))
+            na = min(len(a), room // 2)
+            ks = sorted(dbl + a[:na] + b[:room - na])
+            chk.cov[f'schedules_{src}_double_suspension'] = len(dbl)
             chk.cov[f'schedules_{src}_sandwiched_total'] = len(a)
         chk.cov[f'schedules_{src}'] = len(ks)
         keys += ks
